@@ -98,12 +98,13 @@ class Case:
     def load(self, name): self.lines.append('load %s' % hx(name)); self.nreq += 1; return self
     def vars(self, names): self.lines.append('vars ' + ' '.join(hx(n) for n in names)); self.nreq += 1; return self
     def parse(self, text): self.lines.append('parse %s' % hx(text)); self.nreq += 1; return self
+    def parsex(self, text): self.lines.append('parsex %s' % hx(text)); self.nreq += 1; return self
     def text(self): return '\n'.join(self.lines) + '\nend\n'
     def readable(self):
         out = []
         for l in self.lines:
             p = l.split(' ')
-            if p[0] in ('eval', 'load', 'parse'): out.append('%s %s' % (p[0], unhx(p[1])))
+            if p[0] in ('eval', 'load', 'parse', 'parsex'): out.append('%s %s' % (p[0], unhx(p[1])))
             elif p[0] == 'file': out.append('file %s <<%s>>' % (unhx(p[1]), unhx(p[2])))
             elif p[0] == 'vars': out.append('vars ' + ' '.join(unhx(x) for x in p[1:]))
             else: out.append(l)
